@@ -5,6 +5,11 @@ V = os.path.dirname(os.path.dirname(os.path.abspath(__file__)))
 GOENV = "PATH=/opt/veriftools/go1.26/bin:$PATH GOFLAGS=-mod=mod GOPROXY=off GOSUMDB=off GOTOOLCHAIN=local"
 
 CHECKS = {
+ "C01": dict(
+   technique="ground-truth-by-construction monitor: generated multi-controller projects run through the real CLI (3.0.0 and 3.1.0); paths.* of each emitted spec compared both ways with the operations derived from the project descriptor",
+   text="Runtime monitoring of the real `gleece generate spec` child process on 80 (thorough 800) generated projects x 2 OpenAPI versions: controllers spread over files and packages, shared and parameterised prefixes, doubled/trailing/missing slashes, same path on several verbs, hidden/deprecated/non-endpoint methods, same-named controllers in different packages. The oracle is the descriptor the project was rendered from (verb, normalised path, operationId, tag, deprecation), read with our own JSON reader. Exploration over generated projects only.",
+   note="Trusts the renderer writing what the descriptor says and the path normal form of DESIGN A.1; projects gleece rejects are counted as vacuous (acceptance floor 50%).",
+   ref="DESIGN.md §5 C01"),
  "C15": dict(
    technique="reference-model monitor: brute-force overlap oracle over every route list (bounded-exhaustive + random, permutation re-runs) observing paths.FindConflicts in-process",
    text="Runtime monitoring of the real FindConflicts: every ordered list of <=3 (thorough <=4) entries over 42 route entries plus thousands of large duplicate-heavy random lists are executed and each reported conflict / each unflagged entry is judged by a 12-line overlap model transcribed from the statement; entry identity is tracked by pointer so duplicates are distinguishable. Exploration, not proof: the verdict covers the enumerated and sampled lists only.",
